@@ -26,8 +26,10 @@ thread_local! {
 
 fn gen_program(r: &mut Rng, tier: Tier) -> (Vec<u8>, &'static str) {
     let roll = r.below(100);
-    if roll < 10 {
+    if roll < 9 {
         (workload::gen_bytes(r), "bytes")
+    } else if roll < 11 {
+        (workload::gen_wide(r), "wide_fan_out")
     } else if roll < 18 {
         (workload::gen_growth(r), "growth_chain")
     } else if roll < 28 {
@@ -191,11 +193,21 @@ impl Check for C01Check {
             level: "exploration",
             rule: "case = one generated program (random bytes 10%, value-growth chains 8%, computed boundary constants used as offsets/sizes/shift amounts/jump targets/slot keys 10%, hostile stack-aware 22%, stack-aware 10%, storage idioms 15%, control flow 10%, mutated/cut corpus contracts 15%) x knobs (default 50%, swarm 50%) x schedule (natural keys 50%, seeded adversarial 50%) x API shape (analyze 50%, staged prefix 20%, VM-then-typechecker incl. continue-on-partial-state 20%, phases 10%) x poisoned shared table 5%; one fault-free run (under a step budget) and, for 40% of the cases, one more run with a cancellation injected at a uniformly chosen poll of the measured run (sticky, or flapping 1 in 6). evaluations = simulated runs; non-trivial = the run executed a storage instruction and more than three VM steps, or folded a class with >= 2 pieces of evidence; distinct = distinct (program, fold-order or trace digest, cancellation point), counted with a hash set",
             assumptions: &[
-                "panics are caught with catch_unwind in the worker; aborts, stack overflows (8 MiB stack) and address-space exhaustion (3 GiB) kill the worker and are attributed to the announced case by the parent",
+                "panics are caught with catch_unwind in the worker; aborts, stack overflows (8 MiB stack for half of the cases, 2 MiB - a spawned thread's default - for the other half) and address-space exhaustion (3 GiB) kill the worker and are attributed to the announced case by the parent",
                 "the harness build uses the repository's release settings: overflow-checks on, debug-assertions off",
                 "runs that exceed 400k loop iterations are ended by the step budget and are inconclusive here",
             ],
             components: super::components(),
+        }
+    }
+
+    fn stack_bytes(&self, idx: u64) -> usize {
+        // Half of the cases on the stack of a main thread, half on the 2 MiB
+        // that a spawned Rust thread (a worker pool, a blocking task) has.
+        if idx % 4 >= 2 {
+            2 * 1024 * 1024
+        } else {
+            8 * 1024 * 1024
         }
     }
 
